@@ -175,7 +175,12 @@ impl<'a> SpecGen<'a> {
             10 => { let v = if self.rng.chance(1, 4) { json!(true) } else { self.schema(1) }; (json!({"type": "object", "additionalProperties": v}), "map") }
             11 | 12 => {
                 // array component: items by $ref to a solid component or a primitive (inline object items are a recorded finding)
-                let items = if self.rng.chance(2, 3) { self.solid_ref().unwrap_or_else(|| self.primitive()) } else { self.primitive() };
+                let mut items = if self.rng.chance(2, 3) { self.solid_ref().unwrap_or_else(|| self.primitive()) } else { self.primitive() };
+                // a list of a model that is declared later: the model may in turn hold this list (recursion through a list component)
+                if self.rng.chance(1, 5) {
+                    let later: Vec<String> = self.names.iter().zip(self.kinds.iter()).filter(|(_, k)| **k == "pending").map(|(n, _)| n.clone()).filter(|n| n != name).collect();
+                    if !later.is_empty() { let n: String = self.rng.pick(&later[..]).clone(); items = r(&n); self.feat("array_component_of_later_schema"); }
+                }
                 self.feat("array_component");
                 (json!({"type": "array", "items": items}), "array")
             }
